@@ -92,7 +92,7 @@ func checkC17(c *Ctx, r *Report) {
 		recs := findInstrs(f, callPred("(*"+oaP+".Manager).recordObservationUnlocked"))
 		r1.guard(f, "recordObservationUnlocked", recs, "shouldRecord==true", edgeBool(isCallResult(0, "(*"+oaP+".Manager).shouldRecordObservation"), true), nil)
 	}
-	r1.onlyCallers("call recordObservationUnlocked", []string{"(*"+oaP+".Manager).recordObservationUnlocked"}, c.FnsOfPkg(oaP), "(*"+oaP+".Manager).maybeRecordObservation")
+	r1.onlyCallers("call recordObservationUnlocked", []string{"(*" + oaP + ".Manager).recordObservationUnlocked"}, c.FnsOfPkg(oaP), "(*"+oaP+".Manager).maybeRecordObservation")
 
 	// ---- R2 ---------------------------------------------------------------
 	r2 := r.Rule("C17-R2", "E1", 7, "bookkeeping: entry stored with one add; overwrite/delete removes the previous value; only on open connections; wired to Disconnected")
